@@ -65,6 +65,7 @@ func runC12(c *Config, r *Report) {
 	c12R35(ic, r)
 	c01R42(ic, r, "R12.37")
 	c12R36(ic, r)
+	c12R38(ic, r)
 	{
 		// R12.31 = R01.37 (b), (c): break and continue outside of a loop of the same function are rejected
 		sub := newReport("C01")
